@@ -11,7 +11,7 @@ pub fn def() -> PropDef {
         builds: BOTH,
         rule: "every word over {L,HY,W,CM,SP(inner),D,CSI,OSS,E2,ZW,OP,EM,OSH} up to length N x whitespace in {\"\",\"  \"} x penalty in {\"\",\"-\"} x splitters {none, hyphen, custom(every boundary incl. 0), custom(every other boundary)} x limits 0..=N+1 and MAX; non-trivial = a word that is actually split or actually broken",
         assumptions: BASE_ASSUMPTIONS,
-        floor: |t| t.pick(10_000, 500_000),
+        floor: |t| t.pick(10_000, 30_000),
         run,
     }
 }
